@@ -457,6 +457,20 @@ type verifRpcAdmWaiter struct {
 	cancel context.CancelFunc
 }
 
+// context whose Done() tells the harness that Acquire has reached its blocking select: the semaphore calls
+// ctx.Done() only after it queued the waiter (or found the request larger than the semaphore), never on the
+// fast path -- so "blocked" is observed without any timing assumption.
+type verifRpcAdmCtx struct {
+	context.Context
+	called chan struct{}
+	once   sync.Once
+}
+
+func (c *verifRpcAdmCtx) Done() <-chan struct{} {
+	c.once.Do(func() { close(c.called) })
+	return c.Context.Done()
+}
+
 func verifRpcAdmSeq(limit int, buf int, ops []string) string {
 	s := NewServer(ServerWithLogf(NoopLogf), func(o *ServerOptions) {
 		o.RequestMemoryLimit = limit
@@ -466,21 +480,26 @@ func verifRpcAdmSeq(limit int, buf int, ops []string) string {
 	held := map[int]int{}
 	var waiting []*verifRpcAdmWaiter // queued, in arrival order
 	var doomed []*verifRpcAdmWaiter
-	poll := func() {
-		for round := 0; round < 3; round++ {
-			time.Sleep(time.Millisecond)
-			for i := 0; i < len(waiting); i++ {
-				select {
-				case err := <-waiting[i].ch:
-					if err == nil {
-						held[waiting[i].id] = waiting[i].taken
-					}
-					waiting = append(waiting[:i], waiting[i+1:]...)
-					i--
-				default:
-				}
-			}
+	// after a Release / a cancelled wait: the woken waiters are a prefix of the queue, identified by the accounted sum
+	collectWoken := func(expectedWithoutWoken int64) string {
+		cur, _ := s.RequestsMemory()
+		sum := expectedWithoutWoken
+		k := 0
+		for sum != cur && k < len(waiting) {
+			sum += int64(waiting[k].taken)
+			k++
 		}
+		if sum != cur {
+			return fmt.Sprintf("ACCOUNTING-MISMATCH cur=%d", cur)
+		}
+		for i := 0; i < k; i++ {
+			if err := <-waiting[i].ch; err != nil {
+				return "WOKEN-WITH-ERROR"
+			}
+			held[waiting[i].id] = waiting[i].taken
+		}
+		waiting = waiting[k:]
+		return ""
 	}
 	dump := func(res string) string {
 		cur, _ := s.RequestsMemory()
@@ -513,7 +532,8 @@ func verifRpcAdmSeq(limit int, buf int, ops []string) string {
 		case "a":
 			id, l := verifRpcAtoi(f[1]), verifRpcAtoi(f[2])
 			taken := s.requestBufTake(l)
-			ctx, cancel := context.WithCancel(context.Background())
+			base, cancel := context.WithCancel(context.Background())
+			ctx := &verifRpcAdmCtx{Context: base, called: make(chan struct{})}
 			w := &verifRpcAdmWaiter{id: id, taken: taken, ch: make(chan error, 1), cancel: cancel}
 			go func() { w.ch <- s.acquireRequestSema(ctx, taken) }()
 			select {
@@ -525,7 +545,7 @@ func verifRpcAdmSeq(limit int, buf int, ops []string) string {
 				} else {
 					outs = append(outs, dump("error"))
 				}
-			case <-time.After(4 * time.Millisecond):
+			case <-ctx.called:
 				if taken > limit {
 					doomed = append(doomed, w)
 					outs = append(outs, dump("doomed"))
@@ -547,8 +567,12 @@ func verifRpcAdmSeq(limit int, buf int, ops []string) string {
 			id := hs[verifRpcAtoi(f[1])%len(hs)]
 			taken := held[id]
 			delete(held, id)
+			before, _ := s.RequestsMemory()
 			s.releaseRequestBuf(taken, nil)
-			poll()
+			if e := collectWoken(before - int64(taken)); e != "" {
+				outs = append(outs, e)
+				continue
+			}
 			outs = append(outs, dump("released:"+strconv.Itoa(id)))
 		case "w":
 			sort.Slice(doomed, func(a, b int) bool { return doomed[a].id < doomed[b].id })
@@ -558,13 +582,15 @@ func verifRpcAdmSeq(limit int, buf int, ops []string) string {
 				continue
 			}
 			k := verifRpcAtoi(f[1]) % n
+			before, _ := s.RequestsMemory()
 			var id int
 			if k < len(waiting) {
 				x := waiting[k]
 				id = x.id
 				x.cancel()
 				if err := <-x.ch; err == nil {
-					held[id] = x.taken // acquired just before the cancellation
+					outs = append(outs, "CANCELLED-WAITER-ACQUIRED")
+					continue
 				}
 				waiting = append(waiting[:k], waiting[k+1:]...)
 			} else {
@@ -574,7 +600,10 @@ func verifRpcAdmSeq(limit int, buf int, ops []string) string {
 				<-x.ch
 				doomed = append(doomed[:k-len(waiting)], doomed[k-len(waiting)+1:]...)
 			}
-			poll()
+			if e := collectWoken(before); e != "" {
+				outs = append(outs, e)
+				continue
+			}
 			outs = append(outs, dump("cancelled:"+strconv.Itoa(id)))
 		default:
 			outs = append(outs, "bad-op "+op)
@@ -893,9 +922,18 @@ func verifRpcPlanCalls(n int, maxBody int, seed int64, forceTimeout bool) []*ver
 func TestVerifRpcMux(t *testing.T) {
 	dir, _ := os.Getwd()
 	var out []string
+	hung := false
 	for _, line := range verifRpcReadOps(t) {
 		kv := verifRpcKV(strings.Fields(line))
-		out = append(out, verifRpcMuxScenario(dir, kv)...)
+		if hung { // goroutines of a hung scenario are still around; do not pile up 25 s watchdogs
+			out = append(out, kv["id"]+" END skipped-after-hang")
+			continue
+		}
+		lines := verifRpcMuxScenario(dir, kv)
+		out = append(out, lines...)
+		if len(lines) > 0 && strings.Contains(lines[len(lines)-1], " END hang") {
+			hung = true
+		}
 	}
 	verifRpcWriteOut(t, out)
 }
@@ -965,17 +1003,17 @@ func verifRpcMuxScenario(dir string, kv map[string]string) []string {
 	status := "ok"
 	select {
 	case <-allDone:
-	case <-time.After(25 * time.Second):
+	case <-time.After(15 * time.Second):
 		status = "hang"
-		l.add("HANG calls did not return within 25s")
+		l.add("HANG calls did not return within 15s")
 	}
 	if closeMode != "none" {
 		closeOnce.Do(doClose)
 		select {
 		case <-closeDone:
-		case <-time.After(25 * time.Second):
+		case <-time.After(15 * time.Second):
 			status = "hang"
-			l.add("HANG Close did not return within 25s")
+			l.add("HANG Close did not return within 15s")
 		}
 	}
 	if status == "ok" {
@@ -994,9 +1032,9 @@ func verifRpcMuxScenario(dir string, kv map[string]string) []string {
 			if cur, _ := server.ResponsesMemory(); cur != 0 {
 				l.add("LOGVIOL response memory %d after Close", cur)
 			}
-		case <-time.After(25 * time.Second):
+		case <-time.After(15 * time.Second):
 			status = "hang"
-			l.add("HANG final Close did not return within 25s")
+			l.add("HANG final Close did not return within 15s")
 		}
 	}
 	l.add("END %s maxconc=%d", status, st.max.Load())
@@ -1010,9 +1048,18 @@ func verifRpcMuxScenario(dir string, kv map[string]string) []string {
 func TestVerifRpcAdm(t *testing.T) {
 	dir, _ := os.Getwd()
 	var out []string
+	hung := false
 	for _, line := range verifRpcReadOps(t) {
 		kv := verifRpcKV(strings.Fields(line))
-		out = append(out, verifRpcAdmScenario(dir, kv))
+		if hung {
+			out = append(out, kv["id"]+" status=skipped-after-hang")
+			continue
+		}
+		res := verifRpcAdmScenario(dir, kv)
+		out = append(out, res)
+		if strings.Contains(res, " status=hang") {
+			hung = true
+		}
 	}
 	verifRpcWriteOut(t, out)
 }
@@ -1146,7 +1193,7 @@ func verifRpcAdmScenario(dir string, kv map[string]string) string {
 	status := "ok"
 	select {
 	case <-allDone:
-	case <-time.After(40 * time.Second):
+	case <-time.After(30 * time.Second):
 		status = "hang"
 	}
 	close(stopSampler)
@@ -1172,7 +1219,7 @@ func verifRpcAdmScenario(dir string, kv map[string]string) string {
 		select {
 		case <-fin:
 			endMem, _ = server.RequestsMemory()
-		case <-time.After(25 * time.Second):
+		case <-time.After(15 * time.Second):
 			status = "hang-close"
 		}
 	}
